@@ -145,7 +145,25 @@ def values_pair(regime, kind, rng, sx, sy):
     raise ValueError(regime)
 
 
-def values_one(regime, rng, shape):
+def relayout(v, rng):
+    """same values, another memory layout: C, Fortran order, or a strided view (hostile: code relying on C order)"""
+    v = np.asarray(v)
+    if v.ndim < 2 or v.size < 2:
+        return v
+    r = rng.random()
+    if r < 0.34:
+        return v
+    if r < 0.67:
+        return np.asfortranarray(v)
+    big = np.zeros(tuple(2 * n for n in v.shape), dtype=v.dtype)
+    view = big[tuple(slice(None, None, 2) for _ in v.shape)]
+    view[...] = v
+    return view
+
+
+def values_one(regime, rng, shape, layout=False):
+    if layout:
+        return relayout(values_one(regime, rng, shape), rng)
     if regime == "tagged":
         n = int(np.prod(shape)) if shape else 1
         if n <= 52:
@@ -165,3 +183,56 @@ def permute_array(fd, arr, order):
     axes = [letters.index(l) for l in order]
     dims = fd.DimensionSet(dim_list=[arr.dims[l] for l in order])
     return type(arr)(dims=dims, values=np.ascontiguousarray(np.transpose(arr.values, axes)), name=arr.name) if type(arr) is fd.FlodymArray else fd.FlodymArray(dims=dims, values=np.ascontiguousarray(np.transpose(arr.values, axes)), name=arr.name)
+
+
+class Fresh:
+    """Proxy handing out a private copy of an array for every attribute access / operator, so that a defect which
+    mutates its input cannot mask later cases of the same driver."""
+
+    def __init__(self, hub, arr):
+        object.__setattr__(self, "_hub", hub)
+        object.__setattr__(self, "_arr", arr)
+
+    def new(self):
+        hub, arr = self._hub, self._arr
+        with hub.pause():
+            return hub.fd.FlodymArray(dims=arr.dims, values=arr.values.copy(order="K"), name=arr.name)
+
+    def __getattr__(self, name):
+        return getattr(self.new(), name)
+
+    def __getitem__(self, key):
+        return self.new()[key]
+
+    def __add__(self, o):
+        return self.new() + o
+
+    def __radd__(self, o):
+        return o + self.new()
+
+    def __sub__(self, o):
+        return self.new() - o
+
+    def __rsub__(self, o):
+        return o - self.new()
+
+    def __mul__(self, o):
+        return self.new() * o
+
+    def __rmul__(self, o):
+        return o * self.new()
+
+    def __truediv__(self, o):
+        return self.new() / o
+
+    def __rtruediv__(self, o):
+        return o / self.new()
+
+    def __pow__(self, o):
+        return self.new() ** o
+
+    def __neg__(self):
+        return -self.new()
+
+    def __abs__(self):
+        return abs(self.new())
